@@ -32,8 +32,13 @@ def _table(rng, big):
     if rng.random() < 0.2:
         names.append(style + "Y")
     rows = []
+    # WGS-like wide bins: one filtered bin inside an arm then opens a hole of centromere size (>= 100 kb)
+    # between two SURVIVING bins, so the segmenter's own arm split differs from the split of the input
+    wide = rng.random() < 0.3
     for c in names:
         n = rng.choice([1, 2, 3, 8, 30, 60]) if not big else rng.choice([20, 110, 130, 200, 400])
+        if wide and rng.random() < 0.7:
+            n = rng.randint(105, 170)
         if rng.random() < 0.3:
             n = rng.randint(102, 140)  # enough bins for an arm split
         pos = rng.randint(0, 10 ** 5)
@@ -47,16 +52,16 @@ def _table(rng, big):
                 pos += rng.randint(0, 2000)
             if rng.random() < 0.03:
                 level = rng.choice([-1.0, 0.0, 0.585, 1.0])
-            ln = rng.randint(50, 500)
+            ln = rng.randint(50, 500) if not wide else rng.randint(60000, 150000)
             if rng.random() < 0.2:
                 gname += 1
             g = rng.choice(["G%d" % gname] * 6 + ["Antitarget", "-", "G%d" % max(0, gname - 2)])
-            null = rng.random() < 0.06 or (i in (0, n - 1) and rng.random() < 0.3)
+            null = rng.random() < (0.06 if not wide else 0.02) or (i in (0, n - 1) and rng.random() < 0.3)
             lg = -20.0 if null else round(level + rng.gauss(0, 0.08), 4)
             if not null and rng.random() < 0.02:
                 lg = round(level + rng.choice([-4, 4]), 3)  # outlier
             depth = 0.0 if null else round(50 * 2.0 ** lg, 3)
-            w = 0.0 if rng.random() < 0.05 else round(rng.uniform(0.15, 1.0), 3)
+            w = 0.0 if rng.random() < (0.05 if not wide else 0.015) else round(rng.uniform(0.15, 1.0), 3)
             rows.append([c, pos, pos + ln, g, lg, w, depth])
             pos += ln
     return rows
